@@ -22,8 +22,9 @@ print (the end point of notation 3, the start point of notation 4) is not observ
 (`canon_model` rewrites the model's number).  A model answer `outside` (non-ASCII digits in the repetitions, interval
 texts the duration model leaves outside, ...) is no claim: counted in the label, never compared.
 
-Left out: recurrence texts whose two points lie more than MAX_SPAN_YEARS apart and repetition counts of more than 12
-digits (the constructor's cost is linear in the days spanned: the script met them as time-outs and skipped them).
+Left out of `rparse` / `rround`: recurrences whose two points lie more than MAX_SPAN_YEARS apart and texts with a
+number of ten digits or more (the constructor's cost is linear in the days spanned: the script met them as time-outs
+and skipped them); `rgroups` still sees those texts.
 The script's family "one repetition and an end point only" (prints `R1/None/None`) is kept: model and code agree.
 """
 import re
@@ -323,18 +324,29 @@ def assemble(rng):
 
 
 _TWO_POINTS = re.compile(r"^R[0-9]*/([^/P][^/]*)/([^P].*)$", re.S)
-_YEAR = re.compile(r"[+-][0-9]{6}|[0-9]{4}")
-_REPS = re.compile(r"^R([0-9]{13,})/")
+_LONG_NUMBER = re.compile(r"[0-9]{10,}")
+
+
+def _year_of(text):
+    """The year a point text starts with, roughly (only to bound the cost): +-XCCYY, CCYY or CC."""
+    m = re.match(r"[+-][0-9]{6}", text)
+    if m:
+        return int(m.group())
+    m = re.match(r"[0-9]{4}", text)
+    if m:
+        return int(m.group())
+    m = re.match(r"[0-9]{2}", text)
+    return int(m.group()) * 100 if m else None
 
 
 def costly_text(text):
     """A text the constructor would take seconds over (cost linear in the days spanned)."""
-    if _REPS.match(text):
+    if _LONG_NUMBER.search(text):      # repetitions / interval components / years of ten digits and more
         return True
     m = _TWO_POINTS.match(text)
     if m:
-        ys = [_YEAR.match(g) for g in m.groups()]
-        if all(ys) and abs(int(ys[0].group()) - int(ys[1].group())) > MAX_SPAN_YEARS:
+        ys = [_year_of(g) for g in m.groups()]
+        if None not in ys and abs(ys[0] - ys[1]) > MAX_SPAN_YEARS:
             return True
     return False
 
@@ -378,8 +390,7 @@ class RecTextOp(ModelSkips, Op):
         return self.peeked(distinct(self._gen(rng, tier, boost)))
 
     def _gen(self, rng, tier, boost):
-        quick = tier == "quick"
-        n = (260 if quick else 2600) * boost
+        n = (1000 if tier == "quick" else 10000) * boost
         shard = getattr(self, "shard", None)
         if shard:
             n = n // shard[1] + 1
@@ -409,19 +420,18 @@ class RecTextOp(ModelSkips, Op):
                 for _ in range(2):
                     texts.append((m, mutate(rng, t)))
         for h in gens.shard_filter(HAND, shard):
-            for m in (["greg", "d360"] if not quick else [rng.choice(["greg", "d360"])]):
+            for m in ["greg", "d360"]:
                 texts.append((m, h))
-            for _ in range(1 if quick else 3):
+            for _ in range(3):
                 texts.append((gens.mode(rng), mutate(rng, h)))
         for _ in range(n):
             texts.append((gens.mode(rng), assemble(rng)))
         for _ in range(n // 2):
             texts.append((gens.mode(rng), garbage(rng)))
         for m, t in texts:
-            if costly_text(t):
-                continue
             yield ("rgroups", t)
-            yield ("rparse", m, rng.choice(ZONES), t)
+            if not costly_text(t):
+                yield ("rparse", m, rng.choice(ZONES), t)
 
     def from_corpus(self, a):
         return tup(a)
@@ -469,7 +479,7 @@ class RecTextOp(ModelSkips, Op):
     def in_property(a):
         """Whole-second valid points whose years the digits can spell, a non-negative integer interval, something
         other than an end point to print."""
-        m, neds, nede, (reps, start, dur, end) = a[1], a[3], a[4], a[5]
+        m, neds, nede, (_, start, dur, end) = a[1], a[3], a[4], a[5]
         if start is None and dur is None:
             return False
         for t, ned in ((start, neds), (end, nede)):
